@@ -967,6 +967,51 @@ def feasible_consts(p):
     return True
 
 
+def option_normal_form(f, p, rv):
+    """A returned Option that is the result of a vector validation handed on as it is (`let r = validate(v); if r.is_some() { return r }`)
+    or through `.map(|(c, pos)| (c, K + pos))` is rewritten, when the path has established which variant it is, to the explicit
+    None / Some((c, K + pos)) the other forms of the same function return."""
+    def bare(e):
+        e = strip(e)
+        while e[0] in ('deref', 'ref'):
+            e = strip(e[1])
+        return e
+    K = 0
+    src = rv
+    if rv[0] == 'call' and (rv[1] or '').endswith('Option::<T>::map') and len(rv[2]) == 2 and rv[2][1][0] == 'agg' and rv[2][1][1] == 'closure' and len(rv[2][1]) == 4:
+        cb = f.body(rv[2][1][3])
+        if cb is None or cb.arg_count != 2 or len(cb.defs.get(0, [])) != 1 or cb.defs[0][0][2] != 'assign':
+            return rv
+        v = Resolver(cb).rvalue(cb.defs[0][0][3]['rv'])
+        if not (v[0] == 'agg' and v[1] == 'tuple' and len(v[2]) == 2 and v[2][0] == ('fld', ('loc', 2), '0')):
+            return rv
+        t_, k_ = add_terms(fold(v[2][1]))
+        if t_ != (('fld', ('loc', 2), '1'),):
+            return rv
+        K, src = k_, rv[2][0]
+    if not (src[0] == 'call' and src[1] in VEC_VALIDATE):
+        return rv
+    which = None
+    for e in p.events:
+        if e[0] != 'cond':
+            continue
+        ce = e[1]
+        if isinstance(ce, tuple) and ce and ce[0] == 'call' and (ce[1] or '').endswith(('Option::<T>::is_some', 'Option::<T>::is_none')) and isinstance(e[2], bool) \
+                and bare(ce[2][0]) in (rv, src):
+            which = 'Some' if (ce[1].endswith('is_some') == e[2]) else 'None'
+        elif isinstance(ce, tuple) and ce and ce[0] == 'variant' and bare(ce[1]) in (rv, src) and e[2] in ('Some', 'None'):
+            which = e[2]
+    if which == 'None':
+        return ('agg', 'core::option::Option::None', ())
+    if which == 'Some':
+        pay = ('fld', ('as', src, 'Some'), '0')
+        pos = ('fld', pay, '1')
+        if K:
+            pos = ('bin', 'Add', ('c', K, 'usize'), pos)
+        return ('agg', 'core::option::Option::Some', (('agg', 'tuple', (('fld', pay, '0'), pos)),))
+    return rv
+
+
 def stride_function(rep, f, c, rule, fn):
     b = f.body(fn)
     if b is None:
@@ -984,6 +1029,7 @@ def stride_function(rep, f, c, rule, fn):
         rv = p.env.get(0)
         if rv is None:
             continue
+        rv = option_normal_form(f, p, rv)
         cov = []
         failed_whole = False
         for e in p.events:
@@ -1005,6 +1051,17 @@ def stride_function(rep, f, c, rule, fn):
                     r_ = vec_ranges(a, total, elem)
                     if r_:
                         cov += r_
+            # the same asked with is_some() / is_none()
+            if isinstance(ce, tuple) and ce and ce[0] == 'call' and (ce[1] or '').endswith(('Option::<T>::is_some', 'Option::<T>::is_none')) and isinstance(e[2], bool) \
+                    and (ce[1].endswith('is_none') == e[2]):
+                x_ = strip(ce[2][0])
+                while x_[0] in ('deref', 'ref'):
+                    x_ = strip(x_[1])
+                if x_[0] == 'call' and x_[1] in VEC_VALIDATE:
+                    for a in x_[2]:
+                        r_ = vec_ranges(a, total, elem)
+                        if r_:
+                            cov += r_
             # scalar chain: (stride[i] & 0xF800) != 0xD800
             if isinstance(ce, tuple) and ce and ce[0] == 'bin' and ce[1] in ('Ne', 'Eq') and isinstance(e[2], bool):
                 for sub in walk(ce):
